@@ -214,32 +214,40 @@ Definition ex_dump3 : dump :=
 
 (* ---------- hwloc_get_common_ancestor_obj ---------- *)
 
-(* for ALL dumps with consistent parent pointers and ALL pairs of objects of
-   non-negative depth (normal objects): the alternating climb terminates (the
-   fuel of the model, depth a + depth b + 1 + nobj, is never exhausted), never
-   reads a NULL parent, and returns the deepest common ancestor: an
-   ancestor-or-self of both of which every common ancestor-or-self is an
-   ancestor-or-self.  (The statement for all objects is false:
-   common_ancestor_total_refuted below.) *)
-Theorem common_ancestor_deepest_partial : forall d a b,
-  parents_ok d -> In a (t_objs d) -> In b (t_objs d) -> (0 <= o_depth a)%Z -> (0 <= o_depth b)%Z ->
+(* for ALL dumps with consistent parent pointers and ALL pairs of objects
+   (normal, memory, I/O, Misc): the loop terminates (the fuel of the model is
+   never exhausted), never reads a NULL parent, and returns the deepest common
+   ancestor: an ancestor-or-self of both of which every common ancestor-or-self
+   is an ancestor-or-self.  (Before fix df24cb8 this held for normal objects
+   only: a memory object and a PU made the PU side climb past the root;
+   corpus/c09/ancestor-numa-pu.case.) *)
+Theorem common_ancestor_deepest : forall d a b,
+  parents_ok d -> In a (t_objs d) -> In b (t_objs d) ->
   exists r, get_common_ancestor_obj d a b = CA_obj (o_id r) /\ anc d r a /\ anc d r b /\
             forall x, anc d x a -> anc d x b -> anc d x r.
 Proof.
-  intros d a b P Ha Hb Da Db. unfold get_common_ancestor_obj, ca_fuel.
-  apply common_ancestor_deepest_l; auto. rewrite !Z.abs_eq by assumption. lia.
+  intros d a b P Ha Hb. unfold get_common_ancestor_obj, ca_fuel.
+  apply common_ancestor_deepest_l; auto. lia.
 Qed.
-Print Assumptions common_ancestor_deepest_partial.
+Print Assumptions common_ancestor_deepest.
 
 Example ex_parents_ok : parents_ok ex_dump3 /\
-  (exists a b, get ex_dump3 1 = Some a /\ get ex_dump3 0 = Some b /\ get_common_ancestor_obj ex_dump3 a b = CA_obj 0).
+  (exists pu numa m, get ex_dump3 1 = Some pu /\ get ex_dump3 2 = Some numa /\ get ex_dump3 0 = Some m /\
+     get_common_ancestor_obj ex_dump3 pu m = CA_obj 0 /\
+     get_common_ancestor_obj ex_dump3 numa pu = CA_obj 0 /\ get_common_ancestor_obj ex_dump3 pu numa = CA_obj 0 /\
+     get_common_ancestor_obj ex_dump3 numa numa = CA_obj 2).
 Proof.
   split.
   - constructor.
     + intros o H. cbn in H. destruct H as [<- | [<- | [<- | []]]]; reflexivity.
+    + intros o p H E. cbn in H. destruct H as [<- | [<- | [<- | []]]]; cbn in E; try discriminate;
+      inversion E; subst; (split; [now left|cbn; lia]).
+    + intros o o' H H' E E'. cbn in H, H'.
+      destruct H as [<- | [<- | [<- | []]]]; cbn in E; try discriminate;
+      destruct H' as [<- | [<- | [<- | []]]]; cbn in E'; try discriminate; reflexivity.
     + intros o p H D E. cbn in H. destruct H as [<- | [<- | [<- | []]]].
       * cbn in E. discriminate.
-      * cbn in E. inversion E; subst. split; [now left|cbn; lia].
+      * cbn in E. inversion E; subst. cbn; lia.
       * exfalso. revert D. unfold HWLOC_TYPE_DEPTH_NUMANODE. cbn. lia.
     + intros o H D. cbn in H. destruct H as [<- | [<- | [<- | []]]].
       * cbn in D. lia.
@@ -248,7 +256,7 @@ Proof.
     + intros o o' H H' D D'. cbn in H, H'.
       destruct H as [<- | [<- | [<- | []]]]; destruct H' as [<- | [<- | [<- | []]]]; try reflexivity;
       exfalso; revert D D'; unfold HWLOC_TYPE_DEPTH_NUMANODE; cbn; lia.
-  - eexists. eexists. split; [reflexivity|]. split; [reflexivity|]. vm_compute. reflexivity.
+  - eexists. eexists. eexists. split; [reflexivity|]. split; [reflexivity|]. split; [reflexivity|]. vm_compute. auto.
 Qed.
 
 (* ---------- hwloc_get_obj_with_same_locality (normal / memory types) ---------- *)
@@ -284,33 +292,24 @@ Example ex_singlify :
   bitmap_singlify_per_core cores (bs_of_N 15) 0 = bs_of_N 13.
 Proof. vm_compute. auto. Qed.
 
-(* ---------- statements that are false on the faithful model (findings, replayed on the C code by checks/c09.py) ---------- *)
+(* ---------- statements that were false before the fixes df9b650 / df24cb8 / 18dcd81 (cases kept in corpus/c09) ---------- *)
 
-(* "hwloc_get_common_ancestor_obj cannot return NULL" / is total: refuted.  With
-   a memory object (depth -3) and a PU the PU side climbs past the root and
-   NULL->depth is read *)
-Theorem common_ancestor_total_refuted :
-  exists d a b, get d 1 = Some a /\ get d 2 = Some b /\
-                deref d (o_parent a) <> None /\ deref d (o_parent b) <> None /\
-                get_common_ancestor_obj d b a = CA_crash /\ get_common_ancestor_obj d a b = CA_crash.
-Proof.
-  exists ex_dump3. eexists. eexists. split; [reflexivity|]. split; [reflexivity|].
-  split; [vm_compute; discriminate|]. split; [vm_compute; discriminate|]. vm_compute. auto.
-Qed.
-Print Assumptions common_ancestor_total_refuted.
+(* hwloc_get_closest_objs with a memory source now searches the source's special level
+   (before: levels[-3], heap-buffer-overflow read; corpus/c09/closest-numa-src.case) *)
+Example closest_objs_memory_source :
+  exists src, get ex_dump3 2 = Some src /\ o_cs src <> None /\ get_closest_objs ex_dump3 src 4 = [].
+Proof. eexists. split; [reflexivity|]. split; [vm_compute; discriminate|]. vm_compute. reflexivity. Qed.
 
-(* hwloc_get_closest_objs on an object with a cpuset but a negative depth indexes levels[] out of bounds *)
-Theorem closest_objs_any_cpuset_object_refuted :
-  exists d src, get d 2 = Some src /\ o_cs src <> None /\ get_closest_objs d src 4 = CL_oob.
-Proof. exists ex_dump3. eexists. split; [reflexivity|]. split; [vm_compute; discriminate|]. vm_compute. reflexivity. Qed.
-Print Assumptions closest_objs_any_cpuset_object_refuted.
+(* for ALL CPU-less roots, n, until, flags: the call fails with EINVAL and writes nothing
+   (before: returned 0 leaving the n slots unwritten; corpus/c09/distrib-cpuless.case).
+   Together with distrib_count: exactly n sets, or an error. *)
+Theorem distrib_cpuless_roots_einval : forall roots n until flags,
+  Forall (fun r => weight_u (fst r) = 0) roots ->
+  fst (fst (hwloc_distrib roots n until flags)) = (-1)%Z /\ snd (fst (hwloc_distrib roots n until flags)) = 1 /\
+  snd (hwloc_distrib roots n until flags) = D_ok [].
+Proof. exact hwloc_distrib_cpuless. Qed.
+Print Assumptions distrib_cpuless_roots_einval.
 
-(* exactly n sets: false when every root is CPU-less (the call succeeds and writes nothing) *)
-Theorem distrib_count_cpuless_roots_refuted :
-  exists roots n, n = 2 /\ Forall (fun r => tree_wf (snd r) = true /\ fst r = cs (snd r)) roots /\
-                  hwloc_distrib roots n INT_MAX 0 = (0%Z, 0, D_ok [None; None]).
-Proof.
-  exists [(bs_empty, leaf (mkd 0 HWLOC_OBJ_PACKAGE 1 0 0 0 0))], 2. split; [reflexivity|].
-  split; [constructor; [split; vm_compute; reflexivity|constructor]|]. vm_compute. reflexivity.
-Qed.
-Print Assumptions distrib_count_cpuless_roots_refuted.
+Example ex_distrib_cpuless :
+  hwloc_distrib [(bs_empty, leaf (mkd 0 HWLOC_OBJ_PACKAGE 1 0 0 0 0))] 2 INT_MAX 0 = ((-1)%Z, 1, D_ok []).
+Proof. vm_compute. reflexivity. Qed.
